@@ -9,7 +9,7 @@ from vals import Unsupported
 def main():
     args = sys.argv[1:]
     repo = '/repo'
-    opts = {}
+    opts = {'nilrecv': True}
     names = []
     verbose = False
     show = False
